@@ -12,7 +12,7 @@ COMMON_NOTE = (
     "extraction via ExtrOcamlBasic+ExtrOcamlString only with Z/Q kept as extracted inductives; tools/translate*.py "
     "(regenerate coq/gen/*.v from /repo on every run, fail closed: data tables, regexes, cache keys, write effects, and the bodies of the "
     "calendar helpers, of the TimePoint arithmetic/constructor/truncated-addition methods and of the Duration and TimeRecurrence methods, which are proved equal to the model); the rest of the hand-written "
-    "Gallina model (parts of the parser and of the dumper - see C07/C08 -, duration and recurrence text, CLI) is tied to the code by the correspondence run (same cases on the extracted "
+    "Gallina model (parts of the parser and of the dumper - see C07/C08 -, the recurrence parser, main.py's argparse layer) is tied to the code by the correspondence run (same cases on the extracted "
     "model and on the real package), so agreement outside the explored cases is assumed there; CPython int/float/re/str-formatting are "
     "modelled, not verified. ")
 
@@ -111,7 +111,7 @@ CLAIMED = {
               "second; the recurrence output is the first N points (none for N <= 0) with C12's series theorems carried through. The model is "
               "compared with main(argv) run in-process (stdout/SystemExit captured) on every case, next to an implementation-side oracle "
               "(library API vs command line, first + d == second, total = seconds/unit), and malformed arguments in every slot."),
-        note=("argparse, stdin, now/--ref, the time.strptime fallback for ctime formats, --as-total arithmetic, environment variables and the "
+        note=("Props/C19Code.v: the bodies of DateTimeOperator.__init__, date_parse, date_shift, date_format, date_diff, process_time_point_str and diff_time_point_strs are translated from /repo on every run (gen/GenCode11.v; parsers, dumper and arithmetic as parameters instantiated with the model's) and proved equal to the functions of Model/Cli.v. argparse, stdin, now/--ref, the time.strptime fallback for ctime formats, --as-total arithmetic, environment variables and the "
               "exit-status/message mapping are outside the model (the correspondence exercises --calendar, --utc, --max, --offset, "
               "--print-format, ISODATETIMECALENDAR through the real main). A shift smaller than the printed precision is invisible in the "
               "output: the theorems state the output as the dump of the shifted point, not that it parses back to it."),
@@ -142,7 +142,7 @@ CLAIMED = {
               "pattern strings and the time point tables the fallback uses are regenerated from the package and compared with "
               "the strings the matcher was written for (vm_compute). Correspondence on round trips, well-formed strings in the "
               "three notations and ~20k mutated/backtracking strings; oracle: eq, fixpoint, designator values, alt == designator."),
-        note=("Floats are ideal rationals: values needing more than 15 significant digits, exponent notation (<1e-4), non-ASCII "
+        note=("Props/C10Code.v: the bodies of Duration.__str__ and DurationParser.parse are translated from /repo on every run (gen/GenCode10.v) and proved equal to dur_str and (on designator texts) dur_parse; the fall-back to the date-time-like notation is translated and checked by a closed example. Floats are ideal rationals: values needing more than 15 significant digits, exponent notation (<1e-4), non-ASCII "
               "digits, float() spellings such as 1e5/1_0 and most non-complete date-time-like forms are explicit UNMODELLED "
               "results, excluded from theorems and comparison. Int h/m/s beyond 2^53 and totals >= 2^53 s break == in the "
               "implementation (float rounding; notes/C10_REPORT.md)."),
